@@ -8,7 +8,19 @@ random chunkings, one byte at a time and (small files) in every 2-way split, wit
 re-offered; the same lines go to the Lean model. The property oracle is evaluated on the
 implementation's own events first: events concatenate to the expected codestream / aux payloads
 regardless of chunking, ill-formed layouts give an error, every chunking gives the same
-concatenation-normalised stream as one buffer, consumed <= offered."""
+concatenation-normalised stream as one buffer, consumed <= offered.
+
+Layer above (`AuxBoxList` behind `JxlImage::aux_boxes()`, theorems `C10_aux_*`, model
+`Model/AuxBox.lean`, harness `c10a`): container files that carry a *valid* codestream (from the
+Lean reference encoder) split over jxlc / jxlp boxes, with Exif / xml / other boxes, plain or as
+`brob` with hand-made *stored* Brotli streams (and truncated / trailing-garbage / empty /
+reserved-bit streams, jbrd boxes with garbage), final box sized or running to end of file, are put
+through `build_uninit` -> `feed_bytes`/`try_init` -> `JxlImage::feed_bytes` -> `finalize()` whole,
+byte-wise, in random chunkings, every 2-way split and on truncated prefixes, and through
+`JxlImage::builder().read`.  Oracle first (from the boxes the generator wrote, independent of the
+decoder): after `finalize()` / `read` `first_exif()` / `first_xml()` are the first such box,
+validated; before that only `Decoding` or the final answer; a bad brob / jbrd gives an error.
+Then the model-vs-implementation diff word by word."""
 from vlib import *
 
 MODULES = ["JxlModel.Props.C10"]
@@ -89,13 +101,18 @@ def gen_aux(rng):
     return {"k": "aux", "ty": ty, "data": rbytes(rng, rlen(rng)), "enc": renc(rng)}
 
 
-def gen_wf(rng):
-    """a well-formed box list (Spec.wf)"""
+def gen_wf(rng, cs=None, gen_aux=None):
+    """a well-formed box list (Spec.wf); `cs` = codestream to carry (random bytes if None, in which
+    case the file may also have no codestream box at all), `gen_aux` = generator of the other boxes"""
+    gen_aux = gen_aux or globals()["gen_aux"]
     boxes = []
     for _ in range(rng.choice([0, 0, 1, 1, 2, 3])):
         boxes.append(gen_aux(rng))
     mode = rng.random()
-    cs = rbytes(rng, rlen(rng) + rlen(rng))
+    if cs is None:
+        cs = rbytes(rng, rlen(rng) + rlen(rng))
+    else:
+        mode *= 0.92
     if mode < 0.3:
         boxes.append({"k": "jxlc", "data": cs, "enc": renc(rng)})
     elif mode < 0.92:
@@ -115,10 +132,11 @@ def gen_wf(rng):
     return boxes
 
 
-def gen_ill(rng):
+def gen_ill(rng, cs=None, gen_aux=None):
     """(file bytes, tag, expected error word) — layouts the parser must reject"""
+    gen_aux = gen_aux or globals()["gen_aux"]
     for _ in range(100):
-        boxes = gen_wf(rng)
+        boxes = gen_wf(rng, cs, gen_aux)
         if boxes and boxes[-1]["enc"] == "eof":
             boxes[-1]["enc"] = "short"
         idx = [i for i, b in enumerate(boxes) if b["k"] in ("jxlc", "jxlp")]
@@ -450,13 +468,388 @@ def evaluate(ctx, plan, sessions, ok, state):
                 f"{[len(c) for c in ch]} op#{d}: impl {io[d][:200]!r} model {mo[d][:200]!r}")
 
 
+# ================================================================ layer above: AuxBoxList through JxlImage
+ENC_LINE = ("img 2 2 8 0 1 0 1 0 0 frames 1 frame 0 1 1 0 0 0 0 0 0 0 0 0 0 1 0 0 0 0 wp 1 tr 0 pals 0 "
+            "tree L 0 0 0 1 coded 0 chans 3 2 2 1 2 3 4 2 2 0 0 0 0 2 2 9 8 7 6")
+IMG_TYPES = [b"Exif", b"Exif", b"Exif", b"xml ", b"xml ", b"xml ", b"jumb", b"abcd", b"jxll", b"ftyp", b"\0\0\0\1"]
+
+
+def valid_codestream(ctx):
+    """a small valid codestream (2x2 RGB Modular) from the Lean reference encoder"""
+    out, rc, err = ctx.run_model("enc", [ENC_LINE])
+    if rc != 0 or not out or not out[0].startswith("ok "):
+        raise BuildError("reference encoder gave no codestream: %r %s" % (out[:1], err[-200:]))
+    return bytes.fromhex(out[0].split()[1])
+
+
+def stored_brotli(rng, d):
+    """a Brotli stream of uncompressed meta-blocks only that decompresses to `d` (bits LSB-first:
+    [WBITS 0] ISLAST 0, MNIBBLES 00, MLEN-1 (16 bits), ISUNCOMPRESSED 1, pad; raw bytes; ...; 03)"""
+    if not d:
+        return b"\x06"
+    cuts = sorted(rng.randint(1, len(d) - 1) for _ in range(rng.choice([0, 0, 1, 2, 3]))) if len(d) > 1 else []
+    parts, p = [], 0
+    for c in cuts + [len(d)]:
+        while c - p > 65536:
+            parts.append(d[p:p + 65536]); p += 65536
+        if c > p:
+            parts.append(d[p:c]); p = c
+    out = b""
+    for i, part in enumerate(parts):
+        n = len(part) - 1
+        out += (((n << 4) | (1 << 20)) if i == 0 else ((n << 3) | (1 << 19))).to_bytes(3, "little") + part
+    return out + b"\x03"
+
+
+def gen_exif_payload(rng):
+    """(payload, kind): offset field + body; mostly valid, sometimes too short / offset outside"""
+    r = rng.random()
+    if r < 0.08:
+        return rbytes(rng, rng.randint(0, 3)), "short"
+    body = rbytes(rng, rlen(rng))
+    if r < 0.2:
+        off = rng.choice([len(body), len(body) + 1, 2 ** 32 - 1, len(body) + rng.randint(0, 300)])
+        return off.to_bytes(4, "big") + body, "offset-outside"
+    if not body:
+        body = rbytes(rng, rng.randint(1, 9))
+    off = rng.choice([0, 0, 0, len(body) - 1, rng.randrange(len(body))])
+    return off.to_bytes(4, "big") + body, "valid"
+
+
+def gen_aux_img(rng):
+    """one non-codestream box; `plain` = the payload the consumer must see (None: the box cannot be
+    decoded, `bad` says why)"""
+    r = rng.random()
+    if r < 0.03:
+        d = rng.choice([b"", rbytes(rng, rng.randint(1, 40))])
+        return {"k": "aux", "ty": b"jbrd", "data": d, "enc": renc(rng), "plain": None, "bad": "jbrd"}
+    ty = rng.choice(IMG_TYPES)
+    plain = gen_exif_payload(rng)[0] if ty == b"Exif" else rbytes(rng, rlen(rng))
+    if rng.random() < 0.015:
+        plain = rbytes(rng, rng.randint(65000, 140000))      # several forced meta-blocks
+    if rng.random() >= 0.4 or ty in (b"jxll", b"ftyp"):
+        return {"k": "aux", "ty": ty, "data": plain, "enc": renc(rng), "plain": plain, "bad": None}
+    z, bad = stored_brotli(rng, plain), None
+    if rng.random() < 0.12:
+        bad = rng.choice(["brob-truncated", "brob-truncated", "brob-trailing", "brob-empty", "brob-reserved-bit"])
+        if bad == "brob-truncated":
+            z = z[:rng.randrange(len(z))]
+            bad = "brob-empty" if not z else bad
+        elif bad == "brob-trailing":
+            z = z + rbytes(rng, rng.randint(1, 5))
+        elif bad == "brob-empty":
+            z = b""
+        else:
+            z = b"\x1c" + z[1:]                               # metadata block with the reserved bit set
+    return {"k": "brob", "ty": ty, "data": z, "enc": renc(rng), "plain": None if bad else plain, "bad": bad}
+
+
+def gen_aux_img_good(rng):
+    """like gen_aux_img, decodable boxes only (for layouts where another error is expected)"""
+    while True:
+        b = gen_aux_img(rng)
+        if not b["bad"]:
+            return b
+
+
+def gen_wf_img(rng, cs):
+    boxes = gen_wf(rng, cs, gen_aux_img)
+    if boxes[-1]["enc"] != "eof" and rng.random() < 0.25:    # gen_wf already makes 35 % end in a to-eof box
+        boxes[-1]["enc"] = "eof"
+    return boxes
+
+
+def exif_word(p):
+    if len(p) < 4 or int.from_bytes(p[:4], "big") >= len(p) - 4:
+        return "inv"
+    return "D:%d:%s" % (int.from_bytes(p[:4], "big"), hx(p[4:]))
+
+
+def img_truth(boxes):
+    """what JxlImage must report for the file, from the boxes written (independent of the decoder)"""
+    aux = [b for b in boxes if b["k"] in ("aux", "brob")]
+    bad = next((i for i, b in enumerate(aux) if b.get("bad")), None)
+    good = aux if bad is None else aux[:bad]
+    fe = next((b for b in good if b["ty"] == b"Exif"), None)
+    fx = next((b for b in good if b["ty"] == b"xml "), None)
+    return {"bad": None if bad is None else aux[bad]["bad"],
+            "exif": exif_word(fe["plain"]) if fe else None, "xml": "D:" + hx(fx["plain"]) if fx else None,
+            "any_exif": any(b["ty"] == b"Exif" for b in aux), "any_xml": any(b["ty"] == b"xml " for b in aux),
+            "any_jbrd": any(b["ty"] == b"jbrd" for b in aux)}
+
+
+def truth_to_json(t):
+    return t
+
+
+def expand_words(line):
+    """undo the `=` abbreviation; returns the word list"""
+    out, last = [], None
+    for w in line.split():
+        if w == "=":
+            out.append(last if last is not None else "=")
+        else:
+            out.append(w)
+            if w.startswith("r/"):
+                last = w
+    return out
+
+
+def split_state(w):
+    """r/<exif>/<xml>/<jbrd> -> (exif, xml, jbrd)"""
+    f = w.split("/")
+    return (f[1], f[2], f[3]) if len(f) == 4 and f[0] == "r" else None
+
+
+def img_sessions(rng, data, how, n_rand):
+    """list of ops: ('sess', [lens]) / ('read',)"""
+    n = len(data)
+    ops = [("sess", [n]), ("read",)]
+    if isinstance(how, list):
+        return ops + [("sess", l) for l in how]
+    if how == "all2":
+        ops += [("sess", [k, n - k]) for k in range(0, n + 1)]
+    hb = header_boundaries(data)
+    for _ in range(n_rand):
+        k = rng.choice([2, 2, 3, 4, 6, 9])
+        cuts = sorted((rng.choice(hb) if rng.random() < 0.5 else rng.randint(0, n)) for _ in range(k - 1))
+        ops.append(("sess", [b - a for a, b in zip([0] + cuts, cuts + [n])]))
+    if 0 < n <= 400:
+        ops.append(("sess", [1] * n))
+    if n > 12 and how != "nopfx":                            # a truncated file, then finalize()
+        m = rng.randint(12, n - 1)
+        cuts = sorted(rng.randint(0, m) for _ in range(rng.choice([0, 1, 3])))
+        ops.append(("sess", [b - a for a, b in zip([0] + cuts, cuts + [m])]))
+    return ops
+
+
+def evaluate_img(ctx, plan, ok, state, n_rand=3):
+    """plan entries: (tag, data, truth dict | ('ill', word) | None, how)"""
+    rng = ctx.rng
+    lines, meta = [], []
+    for pi, (tag, data, truth, how) in enumerate(plan):
+        for op in img_sessions(rng, data, how, n_rand):
+            if op[0] == "read":
+                lines.append("read " + hx(data))
+            else:
+                lens = op[1]
+                lines.append("sess %s %s" % (hx(data), "-" if lens == [len(data)] else ",".join(map(str, lens))))
+            meta.append((pi, op))
+    impl = run_lines_robust([ctx.harness_bin("c10a")], lines, per_line_timeout=20.0, batch=400)
+    if ok:
+        model, rc2, err2 = ctx.run_model("c10", lines)
+        if rc2 != 0 or len(model) != len(lines):
+            ctx.failed_obligations.append(f"model driver (aux ops) died rc={rc2} {err2[-300:]}")
+            model = None
+    else:
+        model = None
+    reported = set()
+    for li, ((pi, op), line, io) in enumerate(zip(meta, lines, impl)):
+        tag, data, truth, how = plan[pi]
+        mo = model[li] if model else None
+        lens = op[1] if op[0] == "sess" else None
+        replay = {"layer": "aux", "file_hex": data.hex(), "chunk_lengths": lens, "op": line if len(line) < 4000 else line[:4000] + "...",
+                  "impl": io[:3000], "model": (mo or "")[:3000], "tag": tag, "expect": truth,
+                  "how": "python3 tools/check.py C10 --replay <this file>  (or: echo '<op>' | harness/target/debug/c10a ; "
+                         "lean/.lake/build/bin/jxlmodel c10)"}
+
+        def bad(kind, why, key):
+            if (pi, kind) in reported:
+                return
+            reported.add((pi, kind))
+            state["viol"] = state.get("viol", 0) + 1
+            if state["viol"] <= 40:
+                ctx.violation(kind, why, replay, key=key)
+
+        if io is None or io.startswith(("panic", "crash", "hang", "bad-op")):
+            bad("implementation-abnormal", "aux-box API: " + str(io)[:200], "c10:aux:abnormal:" + str(io).split()[0])
+            continue
+        words = expand_words(io)
+        complete = op[0] == "read" or sum(lens) == len(data)
+        chunks = 1 if op[0] == "read" else sum(1 for l in lens if l)
+        ctx.case((data, "read" if op[0] == "read" else tuple(lens)), chunks >= 2 or op[0] == "read")
+        ctx.count("aux-layer op " + ("read" if op[0] == "read" else "whole" if lens == [len(data)] else
+                                     "truncated" if not complete else "2-way" if len(lens) == 2 else
+                                     "bytewise" if len(lens) > 9 else "3-9 chunks"))
+        violated = False
+        err_words = [w for w in words if w.startswith(("E:", "fin:E:", "read:E:"))]
+        states = [(i, split_state(w)) for i, w in enumerate(words) if w.startswith("r/")]
+        final = states[-1][1] if states and (words[-1].startswith("r/")) and len(words) >= 2 and \
+            words[-2].startswith(("fin:", "read:")) else None
+        if isinstance(truth, dict):
+            t = truth
+            # ---- answers given at any time: Decoding or the final answer; NotFound only if final
+            for i, st in states:
+                last_word = final is not None and i == len(words) - 1
+                if st is None:
+                    bad("implementation-abnormal", "unreadable state word " + words[i][:80], "c10:aux:abnormal:word"); violated = True
+                    break
+                for name, got, want, anyb in (("exif", st[0], t["exif"], t["any_exif"]), ("xml", st[1], t["xml"], t["any_xml"])):
+                    if got == "dec" and not (last_word and complete and words[-2] in ("fin:ok", "read:ok")):
+                        continue
+                    if got == "nf" and not anyb:
+                        continue
+                    if want is not None and got == want:
+                        continue
+                    if not complete and last_word:
+                        continue                                 # a truncated file after finalize(): diff only
+                    kind = ("aux-box-not-delivered-after-finalize" if last_word and got in ("dec", "nf") else
+                            "aux-box-premature-notfound" if got == "nf" else "aux-box-wrong-data")
+                    bad(kind, f"first_{name}() reports {got[:80]} at word {i} of {len(words)} "
+                        f"({'after finalize' if last_word else 'while feeding'}), the file's first such box gives "
+                        f"{str(want)[:80]}; op {op[0]} chunks {lens if lens and len(lens) < 12 else (len(lens) if lens else '')}",
+                        "c10:aux:" + kind + ":" + name)
+                    violated = True
+                if not t["any_jbrd"] and last_word and complete and words[-2] in ("fin:ok", "read:ok") and st[2] != "nf":
+                    bad("aux-jbrd-status", "no jbrd box in the file but jpeg_reconstruction_status() is not Unavailable "
+                        "after finalize", "c10:aux:jbrd-status"); violated = True
+            if complete and not violated:
+                if t["bad"] is None:
+                    if err_words:
+                        bad("well-formed-file-rejected", f"{err_words[0]} on a well-formed file with decodable boxes; "
+                            f"op {op[0]} chunks {lens if lens and len(lens) < 12 else ''}",
+                            "c10:aux:wf-rejected:" + err_words[0]); violated = True
+                    elif final is None:
+                        bad("image-not-initialised", "valid codestream completely fed, still no image: " + io[-80:],
+                            "c10:aux:uninit"); violated = True
+                else:
+                    want_cls = "jbrd" if t["bad"] == "jbrd" else "io"
+                    if not err_words:
+                        bad("undecodable-box-accepted", f"{t['bad']} box gave no error; final state {words[-1][:120]}",
+                            "c10:aux:bad-accepted:" + t["bad"]); violated = True
+                    elif not err_words[0].endswith("E:" + want_cls):
+                        bad("undecodable-box-wrong-error", f"{t['bad']}: {err_words[0]}, expected class {want_cls}",
+                            "c10:aux:bad-error:" + t["bad"]); violated = True
+            ctx.count("aux-layer file " + ("bad:" + t["bad"] if t["bad"] else "good"))
+        elif isinstance(truth, (list, tuple)) and truth and truth[0] == "ill":
+            if complete:
+                if not err_words:
+                    bad("ill-formed-accepted", f"{tag} accepted by the JxlImage feeding API: {io[-120:]}",
+                        "c10:aux:ill-accepted:" + tag); violated = True
+                elif not err_words[0].endswith("E:" + truth[1]):
+                    bad("ill-formed-wrong-error", f"{tag}: {err_words[0]}, expected {truth[1]}",
+                        "c10:aux:ill-error:" + tag); violated = True
+            ctx.count("aux-layer file ill")
+        else:
+            ctx.count("aux-layer file mutant")
+        if op[0] == "sess" and lens == [len(data)]:
+            state["img_files"] = state.get("img_files", 0) + 1
+            if len(ctx.cov["samples"]) < 6 and state["img_files"] % 97 == 1:
+                ctx.sample({"layer": "aux", "tag": tag, "file_hex": data.hex()[:200], "impl": io[:200]})
+        for w in words:
+            if w.startswith(("E:", "fin:", "read:")):
+                ctx.count("aux-layer result " + w)
+        if final:
+            ctx.count("aux-layer final exif " + final[0].split(":")[0])
+            ctx.count("aux-layer final xml " + final[1].split(":")[0])
+        if violated or mo is None:
+            continue
+        # ---- model vs implementation, word by word (`u` = image not initialised: aux_boxes() unreachable)
+        d = words_differ(words, expand_words(mo))
+        if d == "codestream":
+            ctx.count("aux-layer codestream error (not comparable)")
+        elif d is not None and state["diffs"] < 10:
+            mw = expand_words(mo)
+            state["diffs"] += 1
+            ctx.failed_obligations.append(
+                f"correspondence AuxBoxList (JxlImage) vs Jxl.AuxBox model differs at word {d}: file {data.hex()[:300]} "
+                f"op {line[:5]} lens {lens if lens and len(lens) < 12 else ''} impl {' '.join(words[d:d + 2])[:160]!r} "
+                f"model {' '.join(mw[d:d + 2])[:160]!r}")
+
+
+def words_differ(words, mw):
+    """None if the implementation's words agree with the model's, else the index of the first
+    difference.  `u` (image not initialised yet, aux_boxes() unreachable) matches anything; a session
+    that never initialised ends in `fin:uninit`; the real Brotli / jbrd decoders may report a bad
+    stream in an earlier call than the model (which reports it when the box is finalised); errors of
+    the codestream decoder (mutants) are outside this model."""
+    for i, a in enumerate(words):
+        if a == "fin:uninit":
+            return None
+        if a.startswith(("E:other", "E:init")) or a in ("fin:E:other", "read:E:other", "read:E:eof"):
+            return "codestream"
+        if i >= len(mw):
+            return i
+        if a == mw[i] or a == "u":
+            continue
+        if a in ("E:io", "E:jbrd") and any(x in (a, "fin:" + a) for x in mw[i:]):
+            return None
+        return i
+    return None if len(words) == len(mw) else len(words)
+
+
+def mutate_img(rng, data):
+    data = bytearray(data)
+    for _ in range(rng.choice([1, 1, 2])):
+        k, p = rng.random(), rng.randrange(len(data))
+        if k < 0.5:
+            data[p] ^= 1 << rng.randrange(8)
+        elif k < 0.7:
+            data[p] = rng.choice([0, 1, 0xff, 8, 16])
+        elif k < 0.85:
+            del data[p:p + rng.randint(1, 4)]
+        else:
+            data[p:p] = rbytes(rng, rng.randint(1, 4))
+    return bytes(data)
+
+
+def run_img_layer(ctx, ok, state):
+    rng = ctx.rng
+    cs = valid_codestream(ctx)
+    ctx.notes["aux_layer_codestream"] = cs.hex()
+    # ---- corpus: witnesses of this layer (`*.aux.hex`): every 2-way split, byte-wise, read
+    plan = []
+    cdir = os.path.join(VERIF, "corpus", "C10")
+    for f in sorted(os.listdir(cdir)) if os.path.isdir(cdir) else []:
+        if f.endswith(".auxhex"):
+            txt, exp = "", {}
+            for l in open(os.path.join(cdir, f)):
+                if l.startswith("#expect "):
+                    exp = json.loads(l[len("#expect "):])
+                txt += l.split("#")[0]
+            t = {"bad": exp.get("bad"), "exif": exp.get("exif"), "xml": exp.get("xml"),
+                 "any_exif": exp.get("exif") is not None or exp.get("any_exif", False),
+                 "any_xml": exp.get("xml") is not None or exp.get("any_xml", False), "any_jbrd": exp.get("any_jbrd", False)}
+            plan.append(("corpus:" + f, bytes.fromhex("".join(txt.split())), t, "all2"))
+    if plan:
+        evaluate_img(ctx, plan, ok, state)
+    batches = 8 if ctx.quick else 100
+    small = 170 if ctx.quick else 400
+    for _ in range(batches):
+        plan = []
+        for i in range(260):
+            boxes = gen_wf_img(rng, cs)
+            data = ser_file(boxes)
+            t = img_truth(boxes)
+            last = boxes[-1]
+            ctx.count("aux-layer last box " + (("codestream" if last["k"] in ("jxlc", "jxlp") else last["k"]) +
+                                               ("/to-eof" if last["enc"] == "eof" else "/sized")))
+            for b in boxes:
+                if b["k"] in ("aux", "brob"):
+                    ctx.count("aux-layer box " + (b["k"] + (":" + b["bad"] if b.get("bad") else "")))
+                    if b["ty"] == b"Exif" and b.get("plain") is not None:
+                        ctx.count("aux-layer exif payload " + ("valid" if exif_word(b["plain"]) != "inv" else
+                                                               "too-short" if len(b["plain"]) < 4 else "offset-outside"))
+            plan.append(("wf", data, t, "all2" if (len(data) <= small and i < 45) else "rand"))
+        for i in range(40):
+            data, kind, word = gen_ill(rng, cs, gen_aux_img_good)
+            plan.append(("ill:" + kind, data, ("ill", word), "nopfx"))
+        for i in range(60):
+            boxes = gen_wf(rng, cs, lambda r: {"k": "aux", "ty": r.choice(IMG_TYPES), "data": gen_exif_payload(r)[0],
+                                               "enc": renc(r), "plain": None, "bad": None})
+            plan.append(("mutant", mutate_img(rng, ser_file(boxes)), None, "rand"))
+        evaluate_img(ctx, plan, ok, state)
+        if any("died" in f for f in ctx.failed_obligations):
+            break
+
+
 def run(ctx):
     ok = ctx.lean_build(MODULES)
     if ok:
         ctx.audit(MODULES, ctx.update_lock)
         if not ctx.quick:
             ctx.leanchecker(MODULES)
-    ctx.cargo_build(["c10"])
+    ctx.cargo_build(["c10", "c10a"])
     rng = ctx.rng
     state = {"files": 0, "diffs": 0}
     ctx.cov["rule"] = ("container files serialised from random Spec box lists (aux/brob/jxlc/jxlp, 32-bit, 64-bit and "
@@ -464,16 +857,36 @@ def run(ctx):
                        "ill-formed variants (12 kinds), mutated/truncated files; each fed whole, in random chunkings aimed at "
                        "header boundaries, byte-by-byte (<=300 bytes) and in every 2-way split (small files); a case = "
                        "(file, chunking); non-trivial if the chunking has >=2 non-empty chunks and at least one box was reached; "
-                       "distinct by content")
+                       "distinct by content.  Aux-box layer: container files around one valid 2x2 codestream (jxlc or 1..6 "
+                       "jxlp pieces), Exif (valid / too short / offset outside) / xml / other boxes, plain or brob with stored "
+                       "Brotli streams (1..4 meta-blocks, empty, > 65536 bytes), bad streams (truncated, trailing bytes, empty, "
+                       "reserved bit), garbage jbrd boxes, final box sized or to end of file; ill-formed layouts; mutants of "
+                       "brob-free files; each through JxlImage whole, read(), byte-wise, random chunkings, every 2-way split "
+                       "(small files) and one truncated prefix; a case = (file, op)")
     ctx.assumptions += [
         "usize = 64 bit (box sizes up to 2^64-1 are cast with `as usize`)",
         "the caller follows the documented protocol: it re-offers unconsumed bytes in front of the next chunk and stops at the first error",
-        "Brotli decompression of brob payloads (jxl-oxide/src/aux_box.rs, brotli-decompressor) is outside the model; this layer "
-        "delivers the inner type and the raw compressed payload",
+        "Brotli decompression (brotli-decompressor) and jbrd parsing (jxl_jbr) are PARAMETERS of the AuxBoxList model "
+        "(Codec.decompress : whole compressed stream -> Option output, Codec.jbrdOk); the theorems hold for every such pair. "
+        "The correspondence run instantiates decompress with a decoder of stored-only Brotli streams (anything else = "
+        "invalid) and jbrdOk = false: the generator writes only stored streams (checked against the real decoder by the "
+        "oracle: the payload reported must be the bytes the generator compressed) and bad streams that are invalid for "
+        "every Brotli decoder (proper prefix, trailing bytes, empty, reserved bit set); mutants are made from brob-free "
+        "files only. The real decoder may report a bad stream in an earlier feed call than the model (which reports it "
+        "when the box ends); both end the session with an error of the same class",
+        "the codestream side of feed_bytes (frame parsing, try_init) is C09's; the aux-box campaign uses one valid "
+        "codestream from the Lean reference encoder; aux_boxes() is only reachable once the image is initialised, so "
+        "states before that are not observed (model words there are not compared)",
         "AuxBoxEnd / NoMoreAuxBox are only emitted once a byte after that position is offered; the Spec's `expected` says so explicitly",
     ]
     if getattr(ctx, "replay", None):
         r = json.load(open(ctx.replay))["replay"]
+        if r.get("layer") == "aux":
+            exp = r.get("expect")
+            plan = [("replay:" + r.get("tag", ""), bytes.fromhex(r["file_hex"]), tuple(exp) if isinstance(exp, list) else exp,
+                     [r["chunk_lengths"]] if r.get("chunk_lengths") else [])]
+            evaluate_img(ctx, plan, ok, state, n_rand=0)
+            return
         plan = [("replay:" + r.get("tag", ""), bytes.fromhex(r["file_hex"]), exp_from_json(r.get("expect")),
                  [r["chunk_lengths"]])]
         evaluate(ctx, plan, make_sessions(rng, plan, 0), ok, state)
@@ -511,3 +924,8 @@ def run(ctx):
             break
     ctx.notes["sessions"] = n_sessions
     ctx.notes["files"] = state["files"]
+    # ---- the layer above: AuxBoxList through JxlImage
+    t1 = time.time()
+    run_img_layer(ctx, ok, state)
+    ctx.notes["aux_layer_files"] = state.get("img_files", 0)
+    ctx.notes["aux_layer_s"] = round(time.time() - t1, 1)
